@@ -18,15 +18,6 @@ func verifKeys(m map[string]bool) []string {
 	return r
 }
 
-// VerifRoundTo1Decimal exposes roundTo1Decimal.
-func VerifRoundTo1Decimal(x float64) float64 { return roundTo1Decimal(x) }
-
-// VerifRoundTo2Decimal exposes roundTo2Decimal.
-func VerifRoundTo2Decimal(x float64) float64 { return roundTo2Decimal(x) }
-
-// VerifSeverity exposes severity.
-func VerifSeverity(x float64) Severity { return severity(x) }
-
 // VerifNames returns the sorted names recorded by decodeOne (nil for a nil receiver).
 func (m *Base) VerifNames() []string {
 	if m == nil {
